@@ -59,6 +59,62 @@ def po_target(S):
     S.check("target", S.eq(w.market.get_target_amount(w.op), target_amount(w, w.op)))
 
 
+@native
+def next_bar_row(S, w):
+    """the pool row of a LATER bar: every column a fresh symbol ('nb_*'), in particular other token weights"""
+    import pandas as pd
+    from demeter import MarketStatus
+    from .worlds import T1
+    d = {}
+    for k, v in w.data.items():
+        if k.endswith("_weight"):
+            d[k] = S.int("nb_" + k, 0, 10 ** 6)
+        elif k.endswith("_usdg") or k in ("usdg", "interval"):
+            d[k] = S.int("nb_" + k, 0, 10 ** 30)
+        elif k.endswith("_price") and k != "glp_price":
+            d[k] = S.dec("nb_" + k, 10 ** 24, 10 ** 37)
+        elif k == "glp":
+            d[k] = S.dec("nb_glp", 1, 10 ** 30)
+        elif k == "aum":
+            d[k] = S.dec("nb_aum", 10 ** 12, 10 ** 42)
+        else:
+            d[k] = S.dec("nb_" + k, 0, 10 ** 6, lo_strict=True)
+    return d, MarketStatus(T1, pd.Series(d, dtype=object))
+
+
+@proof("C17", "v1/target-and-fee-follow-the-CURRENT-bar's-pool-row(after-a-fee-calculation-in-an-earlier-bar)", strength="S", shapes=TOKS, config={"max_seconds": 600})
+def po_target_next_bar(S):
+    """The rule is stated per bar: after a fee has been computed in one bar (which may fill any memo), a later bar with other
+       token weights / USDG amounts must be priced from ITS row."""
+    w = world(S)
+    m = w.market
+    total0 = 0
+    for n in w.tokens:
+        total0 = total0 + w.data[n.lower() + "_weight"]
+    S.assume(total0 > 0)
+    m.get_fee_basis_points(w.op, Decimal(S.int("usdg_delta_bar0", 0, 10 ** 30)), S.bool("increase_bar0"))       # bar 0: anything that prices a mint / redeem
+    d1, st1 = next_bar_row(S, w)
+    m.set_market_status(st1, m._price_status)
+    w1 = World2(tokens=w.tokens, data=d1)
+    total1 = 0
+    for n in w.tokens:
+        total1 = total1 + d1[n.lower() + "_weight"]
+    S.assume(total1 > 0)
+    S.check("target==weight-share-of-THIS-bar's-usdg-supply", S.eq(m.get_target_amount(w.op), target_amount(w1, w.op)))
+    delta = S.int("usdg_delta", 0, 10 ** 30)
+    inc = S.bool("increase")
+    key = w.op.name.lower()
+    tgt = target_amount(w1, w.op)
+    S.assume(tgt == 0 or tgt >= 10 ** 6)          # as in the one-bar fee obligation: degenerate targets excluded
+    fee = m.get_fee_basis_points(w.op, Decimal(delta), inc)
+    S.check("fee-within-1bp-of-the-Vault-rule-on-THIS-bar's-row", abs(fee - vault_fee_rule(d1[key + "_usdg"], delta, inc, tgt)) <= 1)
+
+
+class World2:
+    def __init__(self, **kw):
+        self.__dict__.update(kw)
+
+
 @proof("C17", "v1/fee-basis-points:bounded-and-within-1bp-of-the-Vault-rule", strength="S", shapes=TOKS, config={"max_seconds": 600})
 def po_fee(S):
     w = world(S)
